@@ -38,7 +38,7 @@ func c08(e *Env) {
 	r.Explain("Oracle: Encode(Decode(image)) into a fresh buffer == the bytes the decoder consumed, byte for byte; for frames with self-computed length/checksum those tokens (only) must hold the correct values for the re-encoded frame, so a frame whose incoming computed fields were already correct comes back identical (counted separately).")
 	r.Assume("acceptance sets are sampled, not enumerated")
 	types := e.Types()
-	n := e.N(800, 30000)
+	n := e.N(800, 250000)
 	acc := newFeatAcc()
 	e.Par(len(types), func(i int) {
 		t := types[i]
